@@ -68,10 +68,11 @@ def main():
             raise PermissionError(13, "Permission denied", "pio")
         if mode == "oserror":
             raise OSError(8, "Exec format error", "pio")
-        if mode == "fail":
+        if mode in ("fail", "signal"):
+            status = 1 if mode == "fail" else -9   # -9: the tool was killed by a signal
             if k.get("check"):
-                raise subprocess.CalledProcessError(1, cmd)
-            return subprocess.CompletedProcess(cmd, 1)
+                raise subprocess.CalledProcessError(status, cmd)
+            return subprocess.CompletedProcess(cmd, status)
         return subprocess.CompletedProcess(cmd, 0)
 
     def fake_mkdtemp(*a, **k):
